@@ -330,6 +330,18 @@ fn run_two(delta: u64, ja: u64, jb: u64, third: bool, trace: bool) -> CaseResult
         if let Some(h) = &finals[d].a_owner {
             w.deliver(d, IF0, "10.0.0.99:5353", build(&query(vec![(h.clone(), T_A)])));
         }
+        // a renamed daemon is also asked for the names it gave up: it must stay silent
+        if finals[d].inst.as_ref().is_some_and(|i| !name_eq_ci(i, &n("dup._t._tcp.local"))) {
+            for qt in [T_SRV, T_TXT, T_ANY] {
+                w.deliver(d, IF0, "10.0.0.99:5353", build(&query(vec![(n("dup._t._tcp.local"), qt)])));
+            }
+            res.count("old_instance_name_asked_after_rename", 1);
+        }
+        if finals[d].a_owner.as_ref().is_some_and(|h| !name_eq_ci(h, &n("duphost.local"))) {
+            for qt in [T_A, T_ANY] {
+                w.deliver(d, IF0, "10.0.0.99:5353", build(&query(vec![(n("duphost.local"), qt)])));
+            }
+        }
     }
     // then everybody leaves
     for d in 0..nd {
@@ -485,6 +497,18 @@ fn run_scripted(step: u64, kind: u64, shape: u64, trace: bool) -> CaseResult {
         }
         w.deliver(0, IF0, PEER0, build(&query(vec![(ty.clone(), T_PTR)])));
         w.deliver(0, IF0, PEER0, build(&query(vec![(fh.clone(), T_A)])));
+        // and the names it gave up: a renamed daemon must stay silent on those
+        if !name_eq_ci(&fi, &inst) {
+            for qt in [T_SRV, T_TXT, T_ANY] {
+                w.deliver(0, IF0, PEER0, build(&query(vec![(inst.clone(), qt)])));
+            }
+            res.count("old_instance_name_asked_after_rename", 1);
+        }
+        if !name_eq_ci(&fh, &host) {
+            for qt in [T_A, T_ANY] {
+                w.deliver(0, IF0, PEER0, build(&query(vec![(host.clone(), qt)])));
+            }
+        }
         let full = format!("{}._t._tcp.local.", inst_label.replace('\\', "\\\\").replace('.', "\\."));
         let _ = w.ds[0].h.unregister(&full).unwrap();
         w.poke(0);
@@ -562,6 +586,8 @@ pub fn check(tier: &str) -> i32 {
     rep.require("S-two-daemons-one-name", "runs_with_all_announced");
     rep.require("S-two-daemons-one-name", "renames_observed");
     rep.require("S-scripted-conflicts", "announced_after_conflict");
+    rep.require("S-scripted-conflicts", "old_instance_name_asked_after_rename");
+    rep.require("S-two-daemons-one-name", "old_instance_name_asked_after_rename");
     rep.require("S-scripted-conflicts", "reprobe_after_lost_tiebreak");
     rep.finish()
 }
